@@ -78,6 +78,11 @@ func randomSecret(rng *rand.Rand, alphabet string, n int) string {
 		if b[0] == '#' {
 			b[0] = 'x'
 		}
+		// A distinctive tail without special characters: what is left of
+		// the secret when something cuts it at a separator.
+		for i := n - 12; i < n && i > 14; i++ {
+			b[i] = alnum[rng.Intn(len(alnum))]
+		}
 	}
 	return string(b)
 }
@@ -115,6 +120,11 @@ func (s secret) variants() []string {
 	if len(core) >= 12 {
 		add(core)
 	}
+	// The part behind the last separator character (& % + # = ? / ' "),
+	// if it is long enough to be no accident.
+	if i := strings.LastIndexAny(v, "&%+#=?/'\""); i >= 0 && len(v)-i-1 >= 12 {
+		add(v[i+1:])
+	}
 	return l
 }
 
@@ -122,7 +132,11 @@ func buildC17(c *c17Case) (*liveCase, []secret) {
 	rng := rand.New(rand.NewSource(c.Seed))
 	lc := buildC06(&c06Case{Type: c.Type, FrontEnd: c.FrontEnd, Scenario: 0, Hostname: "exact", Marker: "present"})
 	lc.Compare = c.Compare
-	pass := randomSecret(rng, c.Alphabet, 20)
+	n := 20
+	if c.Alphabet == "special" {
+		n = 30
+	}
+	pass := randomSecret(rng, c.Alphabet, n)
 	secrets := []secret{{"password", pass}}
 	lc.Credentials = "* admin " + pass + "\n"
 	if c.Names > 1 {
